@@ -153,32 +153,47 @@ func VH_C14_recreate() {
 	verif.Cover("end")
 }
 
-// VH_C14_race: two nodes create the same name concurrently; every
-// interleaving of their store accesses: at most one succeeds, ids differ.
-func VH_C14_race() {
-	c := vhArbCatalogueN(1) // "a" is free; another table may exist
+// VH_C14_race: two nodes create tables concurrently — the same name, or two
+// different names — under every interleaving of their store accesses: of
+// racing creations of one name at most one succeeds; whatever succeeds got
+// an id greater than every id assigned before and different from the other's.
+func VH_C14_race(sameName int) {
+	c := vhArbCatalogueN(1) // "a" and "b" are free; another table may exist
+	_, bTaken := c.tables["b"]
+	verif.Assume(!bTaken)
+	n1, n2 := "a", "b"
+	if sameName != 0 {
+		n2 = "a"
+	}
+	before := c.maxID()
 	m1, m2 := c.manager(1), c.manager(2)
 	verif.YieldAtStore(c.nh, true)
 	type res struct {
 		t   Table
 		err error
 	}
-	done := make(chan res, 2)
-	go func() { t, err := m1.createTable("a"); done <- res{t, err} }()
-	go func() { t, err := m2.createTable("a"); done <- res{t, err} }()
-	r1, r2 := <-done, <-done
+	d1, d2 := make(chan res, 1), make(chan res, 1)
+	go func() { t, err := m1.createTable(n1); d1 <- res{t, err} }()
+	go func() { t, err := m2.createTable(n2); d2 <- res{t, err} }()
+	r1, r2 := <-d1, <-d2
 	verif.YieldAtStore(c.nh, false)
-	verif.Assert(!(r1.err == nil && r2.err == nil), "of racing creations of one name at most one succeeds")
+	if sameName != 0 {
+		verif.Assert(!(r1.err == nil && r2.err == nil), "of racing creations of one name at most one succeeds")
+	}
+	if r1.err == nil {
+		verif.Assert(r1.t.ClusterID > before, "a created table gets an id greater than every id assigned before")
+		at, err := m1.GetTable(n1)
+		verif.Assert(err == nil && at.ClusterID == r1.t.ClusterID, "the created table is the catalogued one")
+	}
+	if r2.err == nil {
+		verif.Assert(r2.t.ClusterID > before, "a created table gets an id greater than every id assigned before")
+	}
+	if r1.err == nil && r2.err == nil {
+		verif.Assert(r1.t.ClusterID != r2.t.ClusterID, "two tables never share a shard id")
+		verif.Cover("both-win")
+	}
 	if r1.err == nil || r2.err == nil {
 		verif.Cover("one-wins")
-		t := r1.t
-		if r1.err != nil {
-			t = r2.t
-		}
-		at, err := m1.GetTable("a")
-		verif.Assert(err == nil && at.ClusterID == t.ClusterID, "the winner's table is the catalogued one")
-	} else {
-		verif.Cover("both-fail")
 	}
 	verif.Cover("end")
 }
